@@ -117,6 +117,85 @@ CASES = {
 }
 
 
+MORE_CASES = {
+    "section-2d": '''\
+  subroutine run_it(a)
+    integer, intent(inout) :: a(4,10)
+    call sub(a(2:3,4:6))
+  end subroutine run_it
+  subroutine sub(x)
+    integer, intent(inout) :: x(2,3)
+    integer :: i, j
+    do j = 1, 3
+      do i = 1, 2
+        x(i,j) = x(i,j) + 10*i + j
+      end do
+    end do
+  end subroutine sub
+''',
+    "element-expression-index": '''\
+  subroutine run_it(a)
+    integer, intent(inout) :: a(4,10)
+    integer :: i
+    i = 1
+    call sub(a(i+1,3), 7)
+  end subroutine run_it
+  subroutine sub(x, v)
+    integer, intent(inout) :: x
+    integer, intent(in) :: v
+    x = x + v
+  end subroutine sub
+''',
+    "two-calls-same-routine": '''\
+  subroutine run_it(a)
+    integer, intent(inout) :: a(4,10)
+    call sub(a(:,1), 2)
+    call sub(a(:,2), 3)
+  end subroutine run_it
+  subroutine sub(x, v)
+    integer, intent(inout) :: x(4)
+    integer, intent(in) :: v
+    integer :: tmp, j
+    tmp = v*v
+    do j = 1, 4
+      x(j) = x(j) + tmp
+    end do
+  end subroutine sub
+''',
+    "local-array-and-clash": '''\
+  subroutine run_it(a)
+    integer, intent(inout) :: a(4,10)
+    integer :: work(4)
+    work = 5
+    call sub(a(:,3))
+    a(:,4) = work
+  end subroutine run_it
+  subroutine sub(x)
+    integer, intent(inout) :: x(4)
+    integer :: work(4)
+    integer :: j
+    do j = 1, 4
+      work(j) = j
+      x(j) = x(j) + work(j)
+    end do
+  end subroutine sub
+''',
+    "negative-stride-section": '''\
+  subroutine run_it(a)
+    integer, intent(inout) :: a(4,10)
+    call sub(a(1,2:8:2))
+  end subroutine run_it
+  subroutine sub(x)
+    integer, intent(inout) :: x(4)
+    integer :: j
+    do j = 1, 4
+      x(j) = x(j) + 100*j
+    end do
+  end subroutine sub
+''',
+}
+
+
 def _build_run(src, workdir, tag):
     os.mkdir(os.path.join(workdir, tag))
     f90 = os.path.join(workdir, f"{tag}.f90")
@@ -143,7 +222,7 @@ def case(cid):
                                                 TransformationError)
     if not shutil.which("gfortran"):
         return "norun", "gfortran not found", ""
-    module = HEAD + CASES[cid] + TAIL
+    module = HEAD + (CASES.get(cid) or MORE_CASES[cid]) + TAIL
     psyir = FortranReader().psyir_from_source(module)
     caller = [rt for rt in psyir.walk(Routine) if rt.name == "run_it"][0]
     for call in caller.walk(Call):
@@ -170,8 +249,9 @@ def case(cid):
     return "equal", "", module
 
 
-def bounded_cases():
-    return [(cid,) + case(cid) for cid in CASES]
+def bounded_cases(thorough=False):
+    ids = list(CASES) + (list(MORE_CASES) if thorough else [])
+    return [(cid,) + case(cid) for cid in ids]
 
 
 def clash_cases():
